@@ -29,14 +29,17 @@ abbrev ZwFn (P M : Type) := P → Nat → Int → List M → Int → Bool → En
 
 /-! ### transposition table -/
 
+/-- `h % uint64(len(m.table))` -/
+def slot1 (s : Eng M) (h : H) : Nat := h.toNat % s.table.size
+/-- `(h * hashMul) % uint64(len(m.table))` -/
+def slot2 (s : Eng M) (h : H) : Nat := (h * BitVec.ofNat 64 Facts.hashMul).toNat % s.table.size
+
 /-- `ttGet`; the entry is returned by value (all uses read it before any table write) -/
 def ttGet (s : Eng M) (h : H) : Except Err (Option (TEntry M)) :=
   if !s.hasTable then .ok none
   else if s.table.size == 0 then .error (.panic "ttGet: integer divide by zero")
   else
-    let i1 := h.toNat % s.table.size
-    let i2 := (h * BitVec.ofNat 64 Facts.hashMul).toNat % s.table.size
-    match s.table[i1]?, s.table[i2]? with
+    match s.table[slot1 s h]?, s.table[slot2 s h]? with
     | some e1, some e2 =>
       if e1.hash == h then .ok (some e1)
       else if e2.hash == h then .ok (some e2)
@@ -47,24 +50,32 @@ def ttGet (s : Eng M) (h : H) : Except Err (Option (TEntry M)) :=
 def load (o : Oracle M) (s : Eng M) : Bool × Eng M :=
   (o.cancel s.loads s.evals, { s with loads := s.loads + 1 })
 
-/-- `ttPut`: returns the slot to write (`&m.table[i1]`) after moving its old content to the second slot -/
+/-- `if m.table[i1].hash != 0 { m.table[i2] = m.table[i1] }` -/
+def Eng.evict (s : Eng M) (h : H) : Eng M :=
+  match s.table[slot1 s h]? with
+  | none => s
+  | some e1 =>
+    if e1.hash != 0#64 then
+      let t := s.table
+      let i2 := slot2 s h
+      let s := { s with table := #[] }
+      { s with table := t.setIfInBounds i2 e1 }
+    else s
+
+/-- the index of `&m.table[i1]` (`len(m.table) = 0` panics with a division by zero) -/
+def ttSlotIdx (s : Eng M) (h : H) : Except Err Nat :=
+  if s.table.size == 0 then .error (.panic "ttPut: integer divide by zero")
+  else if slot1 s h < s.table.size then .ok (slot1 s h)
+  else .error (.panic "ttPut: index")
+
+/-- `ttPut`: no table, or the cancel flag is set: `nil`; else the slot to write (`&m.table[i1]`) after moving its
+old content to the second slot -/
 def ttPut (o : Oracle M) (s : Eng M) (h : H) : Except Err (Option Nat × Eng M) :=
   if !s.hasTable then .ok (none, s)
   else
-    let (c, s) := load o s
-    if c then .ok (none, s)
-    else if s.table.size == 0 then .error (.panic "ttPut: integer divide by zero")
-    else
-      let i1 := h.toNat % s.table.size
-      let i2 := (h * BitVec.ofNat 64 Facts.hashMul).toNat % s.table.size
-      match s.table[i1]? with
-      | none => .error (.panic "ttPut: index")
-      | some e1 =>
-        if e1.hash != 0#64 then
-          let t := s.table
-          let s := { s with table := #[] }
-          .ok (some i1, { s with table := t.setIfInBounds i2 e1 })
-        else .ok (some i1, s)
+    let r := load o s
+    if r.1 then .ok (none, r.2)
+    else (ttSlotIdx r.2 h).bind fun i => .ok (some i, r.2.evict h)
 
 def Eng.setEntry (s : Eng M) (i : Nat) (e : TEntry M) : Eng M :=
   let t := s.table
@@ -100,22 +111,21 @@ def leaf (g : Game P M) (p : P) (over : Bool) (s : Eng M) : Res M × Eng M :=
 /-- the table probe at the head of both searches: `inl r` = return `r` (shortcut), `inr te` = go on with
 this hint entry (`te = nil` when its move was rejected) -/
 def ttProbe (g : Game P M) (p : P) (ply : Nat) (depth α β : Int) (s : Eng M) :
-    Except Err ((Res M ⊕ Option (TEntry M)) × Eng M) :=
-  match ttGet s (g.hash p) with
-  | .error e => .error e
-  | .ok none => .ok (.inr none, s)
-  | .ok (some e) =>
+    Except Err ((Res M ⊕ Option (TEntry M)) × Eng M) := do
+  let te ← ttGet s (g.hash p)
+  match te with
+  | none => pure (.inr none, s)
+  | some e =>
     let s := { s with st := { s.st with ttHits := s.st.ttHits + 1 } }
     if teSuffices e depth α β then
       match g.apply p e.m with
-      | .ok _ =>
+      | .ok _ => do
         let s := { s with st := { s.st with ttShortcut := s.st.ttShortcut + 1 } }
-        match setA s.pv0 ply e.m "stack[ply].pv" with
-        | .error err => .error err
-        | .ok pv0 => .ok (.inl (some [e.m], e.value), { s with pv0 := pv0 })
-      | .error (.illegal _) => .ok (.inr none, s)
-      | .error err => .error err
-    else .ok (.inr (some e), s)
+        let pv0 ← setA s.pv0 ply e.m "stack[ply].pv"
+        pure (.inl (some [e.m], e.value), { s with pv0 := pv0 })
+      | .error (.illegal _) => pure (.inr none, s)
+      | .error err => throw err
+    else pure (.inr (some e), s)
 
 /-! ### pvSearch -/
 
